@@ -178,6 +178,13 @@ func parseProgressiveMp4(w io.Writer, f *mp4.File, maxNrSamples int, codec strin
 		codec = "hevc"
 	}
 	nrSamples := stbl.Stsz.SampleNumber
+	var nrSttsSamples, nrCttsSamples uint64 // number of samples covered by the time tables
+	for _, count := range stbl.Stts.SampleCount {
+		nrSttsSamples += uint64(count)
+	}
+	if stbl.Ctts != nil && len(stbl.Ctts.EndSampleNr) > 0 {
+		nrCttsSamples = uint64(stbl.Ctts.EndSampleNr[len(stbl.Ctts.EndSampleNr)-1])
+	}
 	mdat := f.Mdat
 	mdatPayloadStart := mdat.PayloadAbsoluteOffset()
 
@@ -194,9 +201,15 @@ func parseProgressiveMp4(w io.Writer, f *mp4.File, maxNrSamples int, codec strin
 			offset += int64(stbl.Stsz.GetSampleSize(sNr))
 		}
 		size := stbl.Stsz.GetSampleSize(sampleNr)
+		if uint64(sampleNr) > nrSttsSamples {
+			return fmt.Errorf("sample %d is not covered by stts (%d samples)", sampleNr, nrSttsSamples)
+		}
 		decTime, _ := stbl.Stts.GetDecodeTime(uint32(sampleNr))
 		var cto int32 = 0
 		if stbl.Ctts != nil {
+			if uint64(sampleNr) > nrCttsSamples {
+				return fmt.Errorf("sample %d is not covered by ctts (%d samples)", sampleNr, nrCttsSamples)
+			}
 			cto = stbl.Ctts.GetCompositionTimeOffset(uint32(sampleNr))
 		}
 		// Next find sample bytes as slice in mdat
